@@ -222,7 +222,7 @@ func VerifH_gme() {
 		verifAssert(g != nil && !g.closed, "C15: RPC routed to a missing or closed pool after construction")
 	}
 	dials0 := vDials
-	verifKnown("F-nonatomic", !defaultMissing)
+	verifKnown("F-nonatomic", !invalid && vDialFail >= dials0) // a dial of this update is set to fail
 	uerr := gme.UpdateMultiEndpoints(upd)
 	verifReach("updated")
 	dialFailed := vDialFail >= dials0 && vDialFail < vDials
@@ -335,7 +335,7 @@ func VerifH_gmenew() {
 		vDialFail = verifInt("dialFail")
 		verifAssume(vDialFail >= 0 && vDialFail <= 1)
 	}
-	verifKnown("F-nonatomic", kind != 0)
+	verifKnown("F-nonatomic", kind == 2)
 	gme, err := NewGCPMultiEndpoint(opts)
 	verifReach("returned")
 	if kind == 2 {
